@@ -306,7 +306,7 @@ theorem sequencer_record_persists (s s' : St) (o : Op) (a : Addr) (q : Seq)
                 · cases hs1
                 · rename_i s2 q2 hsl
                   injection hs1 with hs1; subst hs1
-                  exact (addrs_replace s2.seqs { q2 with dishonor := q2.dishonor + s2.p.dishonorL }).trans
+                  exact (addrs_replace s2.seqs { q2 with dishonor := q2.dishonor + s2.sqp.dishonorL }).trans
                     (congrArg (List.map (·.addr)) (slash_spec hsl).1)
     have hall : (endBlock s f).seqs.map (·.addr) = s.seqs.map (·.addr) := by
       unfold endBlock checkLiveness
